@@ -390,6 +390,9 @@ def _triples_from_gathers(gathers, n):
     return out
 
 
+_LAST = {"consumed": None}  # triples reconstructed from the distance-matrix gathers of the last scoring_run (or None)
+
+
 def scoring_run(n, budget, chooser, rng=None, coincident=0):
     """One execution of the real kernel; returns (records, raised)."""
     preds, var, dist = _kernel_inputs(n, coincident)
@@ -414,9 +417,10 @@ def scoring_run(n, budget, chooser, rng=None, coincident=0):
             return rec, exc, None
     finally:
         G.get_combination_at_sorted_index = orig
+    alt = _triples_from_gathers(dist.gathers, n)
+    _LAST["consumed"] = alt
     if not rec:
         # the kernel no longer goes through the per-index unranker: fall back to the triples it consumed
-        alt = _triples_from_gathers(dist.gathers, n)
         if alt is not None:
             rec = alt
     return rec, None, scores
@@ -730,6 +734,18 @@ def run_consumed(col, n, budget, coincident=0):
     preds, var, dist = _kernel_inputs(n, coincident)
     triples = [r[3] for r in rec]
     case = {"kind": "consumed", "n": n, "budget": budget, "coincident": coincident}
+    # the triples looked up in the distance matrix are the triples that were unranked, each once - nothing else is weighed, not
+    # even with weight zero (rows of a work buffer that were never filled show up here as "triples" like (0, 0, 0))
+    consumed = _LAST["consumed"]
+    if consumed is not None:
+        from collections import Counter
+        got_c, want_c = Counter(r[3] for r in consumed), Counter(tuple(sorted(t, reverse=True)) for t in triples)
+        if got_c != want_c:
+            extra = sorted((got_c - want_c).items())[:4]
+            lost = sorted((want_c - got_c).items())[:4]
+            col.violation(f"{PROP}|scoring|consumed-triples-differ",
+                          f"n_thetas={n}, max_combos={budget}: {sum(want_c.values())} triples were unranked, {sum(got_c.values())} index triples were looked up in the "
+                          f"distance matrix; looked up but never unranked: {extra}; unranked but never looked up: {lost}", case)
     for p in range(preds.shape[0]):
         want = ref_score_over(triples, preds[p].tolist(), var[p].tolist(), dist.tolist())
         got = float(np.asarray(scores)[p])
